@@ -91,6 +91,13 @@ func RunHistory(seed uint64, r *rng.R, work string, opt apphist.Options, cfg Con
 				if cfg.Queries && r.Chance(50) {
 					s.QueryTouched(bz)
 				}
+				if cfg.EVM && cfg.Prop == "C17" && r.Chance(60) {
+					// a read-only contract call at the latest height must not see what only the mempool view holds
+					if m, ok := obs.(*appmon.Monitor); ok && m != nil {
+						k, d := s.VmCallProbe(apphist.SenderOf(bz))
+						m.Report(s, "C17", k, d, "C17.vmcall-probe-pending")
+					}
+				}
 			}
 			if cfg.Queries && r.Chance(40) {
 				s.RandomQuery()
@@ -120,7 +127,7 @@ func RunHistory(seed uint64, r *rng.R, work string, opt apphist.Options, cfg Con
 		}
 		if cfg.EVM && (cfg.Prop == "C17" || cfg.Prop == "") {
 			if m, ok := obs.(*appmon.Monitor); ok && m != nil {
-				k, d := s.VmCallProbe()
+				k, d := s.VmCallProbe(nil)
 				m.Report(s, "C17", k, d, "C17.vmcall-probe")
 			}
 		}
